@@ -10,7 +10,9 @@ and the HTML renderer model, for every token-type list containing Paragraph and 
   * inline level (`C14_inline_inert`, `C14_inline_lines`): a text satisfying the decidable condition `inertBody`
     (no backslash / backtick; `<` not followed by a tag or autolink start; `&` not starting a reference; no `~~`;
     no `]` after the first `[`; every run of * or _ unable to close emphasis by the flanking rules) yields no token
-    candidate at all, hence raw text and soft line breaks only;
+    candidate at all, hence raw text and soft line breaks only; Props/C14_Wide.lean widens the condition (`inertBody2`,
+    `inertBody3`: runs of * and _ may open or close as long as no opener precedes a closer of the same character; "&...;"
+    that html.unescape leaves alone; "]" after "[" when neither "(" nor "[" follows) with the same end-to-end conclusion;
   * end to end (`C14_prose`, `C14_prose_text`): Document(text) is one Paragraph of exactly that text and the HTML
     renderer writes "<p>" + escape(text) + "</p>\n" for every option set.
 Units: `scan.*`, `doc` (real Document + HtmlRenderer against the model on this run's paragraphs, accepted or not) and
@@ -31,7 +33,7 @@ import scan_units
 import spec_emph
 
 ID = 'C14'
-EXTRA_MODULES = ['Mistletoe.Proofs.Inert', 'Mistletoe.Proofs.InertInline', 'propsdriver']
+EXTRA_MODULES = ['Mistletoe.Proofs.Inert', 'Mistletoe.Proofs.InertInline', 'Mistletoe.Proofs.InertInline2', 'propsdriver']
 RULE = ('paragraphs of 1-4 lines of 1-8 tokens from a ~120-token vocabulary (intraword underscores, isolated * - + # > = | ~ ^ $ '
         '% @, unpaired and unlinked brackets, ampersands not starting a reference, digits/dots/parentheses not forming list '
         'markers, quotes, non-ASCII letters and punctuation), kept only when the spec-derived predicate `inert` accepts them. '
@@ -39,10 +41,11 @@ RULE = ('paragraphs of 1-4 lines of 1-8 tokens from a ~120-token vocabulary (int
 TRUSTED = ['harness/props/c14.py:inert is the independent reading of the specification used as filter (conservative: it only '
            'accepts paragraphs in which the specification gives no character a meaning)']
 ASSUMPTIONS = []
-PARTIAL = ['the Lean hypotheses (`inertLine`, `proseLine`, `inertBody`) are sufficient conditions, not the whole inert domain of '
-           'the specification: e.g. a delimiter run that could close but has no opener, "]" after "[" without a link, an "&" '
-           'followed by a name and ";" that is not an entity are outside them; those paragraphs are covered by the exploration '
-           'against the spec-derived predicate only (the evidence gives the measured share)']
+PARTIAL = ['the Lean hypotheses (`inertLine`, `proseLine`, `inertBody3` - Props/C14_Wide.lean) are sufficient conditions, not the '
+           'whole inert domain of the specification: a backslash before a non-punctuation character, "<" directly before a letter '
+           'that starts no tag, a "]" that closes no link although "(" or "[" follows are outside them; those paragraphs are covered '
+           'by the exploration against the spec-derived predicate only (the evidence gives the measured share: about 95 % of the '
+           'spec-derived inert domain meets the hypotheses)']
 
 VOCAB = ['foo', 'bar', 'Baz', 'snake_case', 'a_b_c', '_', 'x_', '__init__ed', '5 * 6', '*', '3*', '- 1', '-', '--', 'a-b', '+', '1+1', 'c++',
          '#', '#tag', 'C#', '# ', '>', '->', '=>', '>=', '<', '< 3', '<=', 'a<b', '=', '==', '===x', '|', 'a|b', '||', '~', '~x', 'a~b', '^', 'x^2',
@@ -187,12 +190,13 @@ def units(ctx):
     # the theorem's hypotheses, evaluated in Lean, and its conclusion, checked on the real renderer
     reqs = [{'op': 'c14.hyps', 'lines': [l + '\n' for l in ls]} for ls in paras]
     hyps = common.driver_batch(reqs, binary=common.PROPS_DRIVER)
-    n_spec = n_both = n_lean = 0
+    n_spec = n_both = n_lean = n_narrow = 0
     for ls, h in zip(paras, hyps):
         spec_ok = inert(ls)
-        lean_ok = isinstance(h, dict) and all(h.get(k) for k in ('nonEmpty', 'oneLine', 'inertLine', 'proseLine', 'inertBody'))
+        lean_ok = isinstance(h, dict) and all(h.get(k) for k in ('nonEmpty', 'oneLine', 'inertLine', 'proseLine', 'inertBody3'))
         n_spec += spec_ok
         n_lean += lean_ok
+        n_narrow += bool(lean_ok and h.get('inertBody'))
         n_both += spec_ok and lean_ok
         if not lean_ok:
             continue
@@ -203,8 +207,8 @@ def units(ctx):
             real = {'raises': type(e).__name__}
         concluded = '<p>' + esc(h['text']) + '</p>\n'
         ctx.compare('c14.theorem', {'lines': ls}, concluded, real, kind='%d-line' % len(ls))
-    ctx.notes.append('of %d generated paragraphs: %d in the spec-derived inert domain, %d meet the Lean hypotheses, %d both'
-                     % (len(paras), n_spec, n_lean, n_both))
+    ctx.notes.append('of %d generated paragraphs: %d in the spec-derived inert domain, %d meet the Lean hypotheses of C14_prose_text3 '
+                     '(%d those of the narrower C14_prose_text), %d both' % (len(paras), n_spec, n_lean, n_narrow, n_both))
 
 
 def explore(ctx, seeds):
